@@ -15,6 +15,10 @@ def catalogs():
             {'name': 'pred2', 'integration_name': 'proj'},
             {'name': 'tp', 'integration_name': 'mindsdb', 'timeseries': True, 'window': 3, 'horizon': 2,
              'order_by_column': 't', 'group_by_columns': ['g']},
+            # time-series models without grouping (both spellings a catalog uses) and with two grouping columns
+            {'name': 'tpnone', 'integration_name': 'mindsdb', 'timeseries': True, 'window': 3, 'horizon': 2, 'order_by_column': 't', 'group_by_columns': None},
+            {'name': 'tpempty', 'integration_name': 'mindsdb', 'timeseries': True, 'window': 3, 'horizon': 2, 'order_by_column': 't', 'group_by_columns': []},
+            {'name': 'tptwo', 'integration_name': 'mindsdb', 'timeseries': True, 'window': 3, 'horizon': 2, 'order_by_column': 'T', 'group_by_columns': ['g', 'h']},
         ]
     out = {
         'names': dict(integrations=['int1', 'int2', 'files'], predictor_metadata=preds_list(), default_namespace='mindsdb'),
@@ -22,7 +26,10 @@ def catalogs():
                                     {'name': 'api1', 'type': 'data', 'class_type': 'api'}, {'name': 'proj', 'type': 'project'}],
                       predictor_metadata=preds_list(), default_namespace='mindsdb'),
         'legacy-dict': dict(integrations=['int1', 'int2'], predictor_namespace='mindsdb',
-                            predictor_metadata={'pred': {}, 'tp': {'timeseries': True, 'window': 3, 'horizon': 2, 'order_by_column': 't', 'group_by_columns': ['g']}}),
+                            predictor_metadata={'pred': {}, 'tp': {'timeseries': True, 'window': 3, 'horizon': 2, 'order_by_column': 't', 'group_by_columns': ['g']},
+                                                'tpnone': {'timeseries': True, 'window': 3, 'horizon': 2, 'order_by_column': 't', 'group_by_columns': None},
+                                                'tpempty': {'timeseries': True, 'window': 3, 'horizon': 2, 'order_by_column': 't', 'group_by_columns': []},
+                                                'tptwo': {'timeseries': True, 'window': 3, 'horizon': 2, 'order_by_column': 'T', 'group_by_columns': ['g', 'h']}}),
         'no-default': dict(integrations=['int1', 'int2'], predictor_metadata=preds_list()),
         'default-int1': dict(integrations=['int1', 'int2'], predictor_metadata=preds_list(), default_namespace='int1'),
     }
@@ -122,6 +129,17 @@ def generated_queries(tier='quick'):
         ('ts-between', "SELECT * FROM int1.tbl1 AS t JOIN mindsdb.tp AS m WHERE t.t BETWEEN '2020-01-01' AND '2020-02-01'"),
         ('ts-limit', "SELECT * FROM int1.tbl1 AS t JOIN mindsdb.tp AS m WHERE t.t > LATEST LIMIT 3"),
         ('ts-none', "SELECT * FROM int1.tbl1 AS t JOIN mindsdb.tp AS m"),
+    ]
+    for mname in ('tpnone', 'tpempty', 'tptwo'):
+        q += [
+            (f'ts-{mname}-gt', f"SELECT * FROM int1.tbl1 AS t JOIN mindsdb.{mname} AS m WHERE t.t > '2020-01-01'"),
+            (f'ts-{mname}-latest', f"SELECT * FROM int1.tbl1 AS t JOIN mindsdb.{mname} AS m WHERE t.t > LATEST LIMIT 3"),
+            (f'ts-{mname}-eq-latest', f"SELECT * FROM int1.tbl1 AS t JOIN mindsdb.{mname} AS m WHERE t.t = LATEST AND t.g = 1"),
+            (f'ts-{mname}-none', f"SELECT * FROM int1.tbl1 AS t JOIN mindsdb.{mname} AS m"),
+            (f'ts-{mname}-model-left', f"SELECT * FROM mindsdb.{mname} AS m JOIN int1.tbl1 AS t WHERE t.t BETWEEN '2020-01-01' AND '2020-02-01'"),
+            (f'ts-{mname}-create', f"CREATE TABLE int2.out1 (SELECT * FROM int1.tbl1 AS t JOIN mindsdb.{mname} AS m WHERE t.t > LATEST)"),
+        ]
+    q += [
     ]
     return q
 
